@@ -5,34 +5,12 @@ import Tahoe.Immutable.UploadDecision
      pre      : `sh:p.p,sh:p` | `-`       (share number ↦ server ids)
      alloc    : `sh:p,sh:p`   | `-`       (bucket writers: share number ↦ server id)
      phases   : failing share numbers joined by `.`, phases joined by `/`, a phase without failure or no phase at all is `-`
-     closeEvs : `o1,f2`       | `-`
-   → `success placed=… sm=… closed=… aborted=…` | `unhappy closed=… aborted=… failed=…`
-  `hp <sharemap>` → the happiness value the driver uses (maximum matching, Kuhn's algorithm). -/
+     closeEvs : `o1,f2,w3`    | `-`       (o = close acknowledged, f = remote close failed, w = final flush write failed)
+   → `success placed=… sm=… closed=… aborted=… vis=… holes=… ursm=… ursv=… pushed=n preexisting=n`
+   | `unhappy closed=… aborted=… failed=… vis=… holes=…` | `assertion`
+  `hp <sharemap>` → the happiness value the driver uses: `UploadDecision.soh`, i.e. C08's model of
+     `servers_of_happiness` (Tahoe.Happiness.serversOfHappiness). -/
 open Tahoe.Drv Tahoe.UploadDecision
-
-/-- try to find an augmenting path from share `sh` (Kuhn); state = (visited servers, matchOf : server ↦ share) -/
-def tryShare (adj : Nat → List Nat) : Nat → Nat → List Nat × List (Nat × Nat) → Bool × (List Nat × List (Nat × Nat))
-  | 0, _, st => (false, st)
-  | fuel + 1, sh, st =>
-    (adj sh).foldl (fun (acc : Bool × (List Nat × List (Nat × Nat))) p =>
-      if acc.1 then acc else
-      let (vis, mt) := acc.2
-      if p ∈ vis then acc else
-      let vis' := p :: vis
-      match mt.lookup p with
-      | none => (true, (vis', (p, sh) :: mt))
-      | some other =>
-        let (ok, (vis2, mt2)) := tryShare adj fuel other (vis', mt)
-        if ok then (true, (vis2, (p, sh) :: mt2.filter (fun e => e.1 != p))) else (false, (vis2, mt2)))
-      (false, st)
-
-def maxMatching (m : Sharemap) : Nat :=
-  let adj := fun sh => (m.lookup sh).getD []
-  let shares := m.map (·.1)
-  let (cnt, _) := shares.foldl (fun (acc : Nat × List (Nat × Nat)) sh =>
-    let (ok, (_, mt)) := tryShare adj (shares.length + 1) sh ([], acc.2)
-    if ok then (acc.1 + 1, mt) else (acc.1, mt)) (0, [])
-  cnt
 
 def parsePeers (t : String) : Option (List Nat) := (t.splitOn ".").mapM String.toNat?
 
@@ -57,6 +35,7 @@ def parseClose (t : String) : Option (List CloseEv) :=
   (t.splitOn ",").mapM (fun e =>
     if e.startsWith "o" then (e.drop 1).toString.toNat?.map CloseEv.ok
     else if e.startsWith "f" then (e.drop 1).toString.toNat?.map CloseEv.fail
+    else if e.startsWith "w" then (e.drop 1).toString.toNat?.map CloseEv.flushFail
     else none)
 
 def showSm (m : Sharemap) : String :=
@@ -74,15 +53,20 @@ def handle : List String → String
   | ["up", happy, pre, alloc, phases, cl] =>
     match happy.toNat?, parseSharemap pre, parseAlloc alloc, parsePhases phases, parseClose cl with
     | some h, some p, some a, some ph, some c =>
-      let r := upload maxMatching h p a ph c
+      let r := upload soh h p a ph c
+      let vis := s!"vis={nl (sortNat r.final.mayBeVisible)} holes={nl (sortNat r.final.holes.eraseDups)}"
       match r.outcome with
       | .success placed sm =>
-        s!"success placed={nl (sortNat placed)} sm={showSm (sortSm sm)} closed={nl (sortNat r.final.closed)} aborted={nl (sortNat r.final.aborted)}"
+        let ur := match r.results with
+          | some u => s!"ursm={showSm (sortSm u.sharemap)} ursv={showSm (sortSm u.servermap)} pushed={u.pushed} preexisting={u.preexisting}"
+          | none => "ursm=? ursv=? pushed=? preexisting=?"
+        s!"success placed={nl (sortNat placed)} sm={showSm (sortSm sm)} closed={nl (sortNat r.final.closed)} aborted={nl (sortNat r.final.aborted)} {vis} {ur}"
       | .unhappy =>
-        s!"unhappy closed={nl (sortNat r.final.closed)} aborted={nl (sortNat r.final.aborted.eraseDups)} failed={nl (sortNat r.final.failedEver)}"
+        s!"unhappy closed={nl (sortNat r.final.closed)} aborted={nl (sortNat r.final.aborted.eraseDups)} failed={nl (sortNat r.final.failedEver.eraseDups)} {vis}"
+      | .assertion => "assertion"
     | _, _, _, _, _ => "bad-op"
   | ["hp", sm] => match parseSharemap sm with
-    | some m => toString (maxMatching m)
+    | some m => toString (soh m)
     | none => "bad-op"
   | _ => "bad-op"
 
